@@ -130,6 +130,7 @@ package dmap
 //@                e.fragment.storage.ttl == update(old(e.fragment.storage.ttl), e.hkey, nt.ttl) &&
 //@                e.fragment.storage.key == update(old(e.fragment.storage.key), e.hkey, nt.key) &&
 //@                e.fragment.storage.ts == update(old(e.fragment.storage.ts), e.hkey, nt.timestamp)
+//@   ensures #count [C10]: e.fragment.storage.count == old(e.fragment.storage.count) + ite(result == nil && !e.putConfig.OnlyUpdateTTL && !old(e.fragment.storage.has)[e.hkey], 1, 0)
 //@   ensures #error_changes_nothing [C05]: result != nil ==> e.fragment.storage.has == old(e.fragment.storage.has) &&
 //@                e.fragment.storage.val == old(e.fragment.storage.val) && e.fragment.storage.ttl == old(e.fragment.storage.ttl) &&
 //@                e.fragment.storage.key == old(e.fragment.storage.key) && e.fragment.storage.ts == old(e.fragment.storage.ts)
@@ -166,14 +167,24 @@ package dmap
 //@   ensures #err_kind: result.1 == nil || result.1 == errFragmentNotFound
 //@   modifies nothing
 
+//@ pure func share(limit int, owned uint64) int = ite(limit / owned >= 1, limit / owned, 1)
+
+// Making room before an insert (C10). share(n) = the fragment's equal share of a node-wide limit n, at least 1.
+// If the fragment is within its share before the call it is strictly below it afterwards, so that the insert
+// that follows cannot push it over; at most one key is evicted per limit, nothing else is touched.
 //@ func (dm *DMap) setLRUEvictionStats(e *env) error
-//@   props C09
-//@   trusted
+//@   props C09 C10
+//@   flag termination
+//@   flag wired 3
+//@   requires #env: e != nil && e.fragment != nil && e.fragment.storage != nil && dm.config != nil && dm.config.lruSamples >= 1
 //@   ensures #only_deletes: forall g uint64 :: e.fragment.storage.has[g] ==> old(e.fragment.storage.has)[g]
 //@   ensures #rest_untouched: e.fragment.storage.val == old(e.fragment.storage.val) && e.fragment.storage.ttl == old(e.fragment.storage.ttl) &&
 //@                e.fragment.storage.key == old(e.fragment.storage.key) && e.fragment.storage.ts == old(e.fragment.storage.ts)
-//@   modifies e.fragment.storage.has, e.fragment.storage.key, e.fragment.storage.val, e.fragment.storage.ttl, e.fragment.storage.ts,
-//@            e.fragment.storage.la, e.fragment.storage.count, e.fragment.storage.inuse
+//@   ensures #room_for_one [C10]: result == nil && dm.config.maxKeys > 0 && dm.s.rt.ownedPartitionCount > 0 && dm.s.rt.ownedPartitionCount < 4611686018427387904 &&
+//@                old(e.fragment.storage.count) <= share(dm.config.maxKeys, dm.s.rt.ownedPartitionCount) ==>
+//@                e.fragment.storage.count < share(dm.config.maxKeys, dm.s.rt.ownedPartitionCount)
+//@   ensures #at_most_two_evicted [C10]: e.fragment.storage.count >= old(e.fragment.storage.count) - 2
+//@   modifies net_acks, DeleteHits.counter, GetMisses.counter, EvictedTotal.counter, e.fragment.storage.has, e.fragment.storage.count, e.fragment.storage.inuse
 
 //@ func (dm *DMap) asyncPutOnCluster(e *env, nt storage.Entry) error
 //@   props C09
@@ -207,7 +218,8 @@ package dmap
 // A write on the partition owner (C09, single-copy path stated exactly; with replicas the same entry is
 // handed to the replication routines). S below is the storage of the fragment the write lands in.
 //@ func (dm *DMap) putOnCluster(e *env) error
-//@   props C09
+//@   props C09 C10
+//@   requires #lru_samples: dm.config != nil ==> dm.config.lruSamples >= 1
 //@   flag clock
 //@   flag termination
 //@   flag wired 3
@@ -236,6 +248,11 @@ package dmap
 //@                !pre(e.fragment.storage.has)[e.hkey] || deadAt(pre(e.fragment.storage.ttl)[e.hkey], now())
 //@   ensures #xx_only_if_live [C09]: result == nil && (e.putConfig.HasXX || e.putConfig.OnlyUpdateTTL) ==>
 //@                pre(e.fragment.storage.has)[e.hkey] && !deadAt(pre(e.fragment.storage.ttl)[e.hkey], old(now()))
+//@   ensures #within_share [C10]: result == nil && dm.s.config.ReplicaCount <= 1 && !e.putConfig.OnlyUpdateTTL && dm.config != nil && dm.config.evictionPolicy == config.LRUEviction &&
+//@                dm.config.maxKeys > 0 && dm.s.rt.ownedPartitionCount > 0 && dm.s.rt.ownedPartitionCount < 4611686018427387904 &&
+//@                pre(e.fragment.storage.count) <= share(dm.config.maxKeys, dm.s.rt.ownedPartitionCount) ==>
+//@                e.fragment.storage.count <= share(dm.config.maxKeys, dm.s.rt.ownedPartitionCount)
+//@   ensures #just_written_is_readable [C10]: result == nil && dm.s.config.ReplicaCount <= 1 && !e.putConfig.OnlyUpdateTTL ==> e.fragment.storage.has[e.hkey]
 //@   ensures #nx_refused [C09]: e.putConfig.HasNX && e.fragment != nil && pre(e.fragment.storage.has)[e.hkey] && !deadAt(pre(e.fragment.storage.ttl)[e.hkey], now()) ==>
 //@                result != nil && e.fragment.storage.has == pre(e.fragment.storage.has) && e.fragment.storage.val == pre(e.fragment.storage.val) &&
 //@                e.fragment.storage.ttl == pre(e.fragment.storage.ttl)
@@ -243,7 +260,7 @@ package dmap
 //@                (!pre(e.fragment.storage.has)[e.hkey] || deadAt(pre(e.fragment.storage.ttl)[e.hkey], old(now()))) ==>
 //@                result != nil && e.fragment.storage.has == pre(e.fragment.storage.has) && e.fragment.storage.val == pre(e.fragment.storage.val) &&
 //@                e.fragment.storage.ttl == pre(e.fragment.storage.ttl)
-//@   modifies net_acks, e.fragment, e.timeout, EvictedTotal.counter, EntriesTotal.counter, every(e.fragment.storage.has), every(e.fragment.storage.key),
+//@   modifies net_acks, e.fragment, e.timeout, EvictedTotal.counter, EntriesTotal.counter, DeleteHits.counter, GetMisses.counter, every(e.fragment.storage.has), every(e.fragment.storage.key),
 //@            every(e.fragment.storage.val), every(e.fragment.storage.ttl), every(e.fragment.storage.ts), every(e.fragment.storage.la),
 //@            every(e.fragment.storage.count), every(e.fragment.storage.inuse)
 
@@ -400,3 +417,60 @@ package dmap
 //@   ensures #all_groups [C15] internal: result.1 == nil ==> forall k Ref :: dom(members)[k] ==> visited(k)
 //@   loop 0 invariant #grouping: members != nil
 //@   loop 1 invariant #groups: members != nil
+
+// ---------------------------------------------------------------------------------------------------
+// C10: eviction. Deleting a key everywhere talks to other members; only its effect on this fragment is assumed.
+//@ func (dm *DMap) deleteOnCluster(hkey uint64, key string, f *fragment) error
+//@   props C10
+//@   trusted
+//@   requires #frag: f != nil && f.storage != nil
+//@   ensures #gone: result == nil ==> f.storage.has == setRemove(old(f.storage.has), hkey) && f.storage.count == old(f.storage.count) - ite(old(f.storage.has)[hkey], 1, 0)
+//@   ensures #rest: f.storage.key == old(f.storage.key) && f.storage.val == old(f.storage.val) && f.storage.ttl == old(f.storage.ttl) && f.storage.ts == old(f.storage.ts) && f.storage.la == old(f.storage.la)
+//@   ensures #failed: result != nil ==> f.storage.has == old(f.storage.has) && f.storage.count == old(f.storage.count)
+//@   modifies net_acks, DeleteHits.counter, f.storage.has, f.storage.count, f.storage.inuse
+
+// The samples are ordered by last access, least recent first.
+//@ func (dm *DMap) evictKeyWithLRU$2(i int, j int) bool
+//@   props C10
+//@   flag termination
+//@   requires #idx: 0 <= i && i < len(items) && 0 <= j && j < len(items)
+//@   ensures #less [C10]: result == (items[i].LastAccess < items[j].LastAccess)
+//@   modifies nothing
+
+// One sampled key is evicted: up to lruSamples present keys are sampled (at least one whenever the fragment is not
+// empty - a Put must not fail because no victim was found), the least recently used of the samples goes.
+//@ func (dm *DMap) evictKeyWithLRU(e *env) error
+//@   props C10
+//@   flag termination
+//@   flag wired 3
+//@   requires #env: e != nil && e.fragment != nil && e.fragment.storage != nil && dm.config != nil
+//@   requires #samples: dm.config.lruSamples >= 1
+//@   requires #not_empty: e.fragment.storage.count > 0
+//@   ensures #finds_a_victim [C10] internal: len(items) >= 1 && len(items) <= dm.config.lruSamples
+//@   ensures #samples_are_present [C10] internal: forall k int :: 0 <= k && k < len(items) ==> old(e.fragment.storage.has)[items[k].HKey] && items[k].LastAccess == old(e.fragment.storage.la)[items[k].HKey]
+//@   ensures #least_recent_of_samples [C10] internal: forall k int :: 0 <= k && k < len(items) ==> items[0].LastAccess <= items[k].LastAccess
+//@   ensures #evicts_one [C10]: result == nil ==> e.fragment.storage.count == old(e.fragment.storage.count) - 1 &&
+//@                (forall g uint64 :: e.fragment.storage.has[g] ==> old(e.fragment.storage.has)[g])
+//@   ensures #failed_changes_nothing [C10]: result != nil ==> e.fragment.storage.has == old(e.fragment.storage.has) && e.fragment.storage.count == old(e.fragment.storage.count)
+//@   ensures #rest: e.fragment.storage.key == old(e.fragment.storage.key) && e.fragment.storage.val == old(e.fragment.storage.val) &&
+//@                e.fragment.storage.ttl == old(e.fragment.storage.ttl) && e.fragment.storage.ts == old(e.fragment.storage.ts)
+//@   loop 0 invariant #sampling: 0 <= idx && idx == len(items) && idx <= dm.config.lruSamples && (cap(items) == 0 || fresh(items)) && off(items) == 0 &&
+//@                (forall k int :: 0 <= k && k < len(items) ==> old(e.fragment.storage.has)[items[k].HKey] && items[k].LastAccess == old(e.fragment.storage.la)[items[k].HKey]) &&
+//@                ((exists g uint64 :: visited(g)) ==> len(items) >= 1)
+//@   loop 0 invariant #temporaries: onlyfresh()
+//@   modifies net_acks, DeleteHits.counter, GetMisses.counter, EvictedTotal.counter, e.fragment.storage.has, e.fragment.storage.count, e.fragment.storage.inuse
+
+// Idleness (C10): a key counts as idle only if the idle window has fully elapsed since its last access.
+//@ func (dm *DMap) isKeyIdleOnFragment(hkey uint64, f *fragment) bool
+//@   props C10
+//@   flag clock
+//@   flag termination
+//@   requires #frag: dm != nil && f != nil && f.storage != nil
+//@   requires #window: dm.config != nil ==> 0 <= dm.config.maxIdleDuration && dm.config.maxIdleDuration < 4611686018427387904
+//@   requires #la_range: 0 <= f.storage.la[hkey] && f.storage.la[hkey] <= 4611686018427387904
+//@   ensures #never_within_window [C10]: result ==> dm.config != nil && dm.config.maxIdleDuration != 0 && f.storage.has[hkey] &&
+//@                now() / 1000000 >= (dm.config.maxIdleDuration + f.storage.la[hkey]) / 1000000
+//@   ensures #disabled: (dm.config == nil || dm.config.maxIdleDuration == 0 || !f.storage.has[hkey]) ==> !result
+//@   ensures #idle_after_window [C10]: dm.config != nil && dm.config.maxIdleDuration != 0 && f.storage.has[hkey] && (dm.config.maxIdleDuration + f.storage.la[hkey]) / 1000000 != 0 &&
+//@                old(now()) / 1000000 >= (dm.config.maxIdleDuration + f.storage.la[hkey]) / 1000000 ==> result
+//@   modifies EvictedTotal.counter
